@@ -17,7 +17,7 @@ import (
 func main() {
 	cur := bip39.VerifSwapSource(nil)
 	bip39.VerifSwapSource(cur)
-	if cur != io.Reader(premux.Mux) {
+	if cur != nil && cur != io.Reader(premux.Mux) { // nil: lazily initialised, picks up crypto/rand.Reader (= the multiplexer) at first use
 		fmt.Fprintln(os.Stderr, "SEAM-UNAVAILABLE: the library's source is not the value crypto/rand.Reader had before its initialisation")
 		os.Exit(4)
 	}
